@@ -6,25 +6,16 @@ A failure is attributed only if
         of the C16 finding as decided by `harness.attrib_c16.in_signature` (F4: sympy's rational nullspace
         of the multiplicity matrix has a non-integral entry, which `.astype(int)` truncates; F4b: a base 1
         next to pairwise coprime bases);
-  (ii)  the lattice rows the code handed to `LatticeIdeal` are really wrong for these bases: some row is
-        not a multiplicative relation (exact rational arithmetic here), or the rows do not contain the
-        relations of the repaired run;
-  (iii) the same input re-run with the integer-kernel repair of harness/tasks/c16.py patched in memory
-        (only `ExponentLattice.compute_basis_rational` / `is_trivially_empty`; InvariantIdeal, LatticeIdeal
-        and the Groebner step run unchanged) no longer shows the failure.
+  (ii)  the lattice rows the code handed to `LatticeIdeal` are wrong for these bases according to the
+        verified judge of C16 (polar-model `lattice_check`): for a false invariant (C06) some row must
+        fail to be a multiplicative relation — a sound but incomplete lattice cannot make the ideal
+        unsound (`c06_ideal_sound`); for a lost relation (C07) the rows must fail to be a basis;
+  (iii) the same input re-run with an in-memory repair of `ExponentLattice` only (InvariantIdeal,
+        LatticeIdeal and the Groebner step run unchanged) no longer shows the failure: the integer-kernel
+        repair of harness/tasks/c16.py; for C06, where that run does not finish within the time limit, the
+        code's own rows with the non-relations filtered out.
 Anything else stays a violation."""
-from fractions import Fraction as Fr
-
 from . import attrib_c16
-
-
-def _row_is_relation(bases, row):
-    v = Fr(1)
-    for b, e in zip(bases, row):
-        if b == 0:
-            return False
-        v *= Fr(b) ** int(e)
-    return v == 1
 
 
 def _common(rec, want):
@@ -37,16 +28,17 @@ def _common(rec, want):
         return None
     if sig != want or rec.get("signature") != want:
         return None
-    lat = rec.get("lattice")
-    if lat is None:
+    lv = rec.get("lattice_verdict")
+    if not lv:
         return None
-    bases = [Fr(s) for s in bq]
-    wrong_row = any(len(r) != len(bases) or not _row_is_relation(bases, r) for r in lat)
-    if want == "F4" and not wrong_row:
-        # truncation can also produce sound but too few rows; then the repaired run must differ
-        if rec.get("repaired_basis") is None:
+    if rec.get("need") == "unsound":
+        if lv["sound"]:
             return None
+    elif lv["sound"] and lv["complete"]:
+        return None
     if not rec.get("repaired_clean"):
+        return None
+    if rec.get("need") != "unsound" and rec.get("repair_kind") == "filter":
         return None
     return sig
 
@@ -54,8 +46,8 @@ def _common(rec, want):
 def f4(prop, rec):
     if _common(rec, "F4"):
         return (f"exponent lattice of {rec.get('bases_q')} truncated to {rec.get('lattice')} "
-                f"(F4, invariants/exponent_lattice.py:compute_basis_rational); with the integer-kernel repair the "
-                f"reported basis is {rec.get('repaired_basis')}")
+                f"(F4, invariants/exponent_lattice.py:compute_basis_rational); with the {rec.get('repair_kind')} repair "
+                f"the reported basis is {rec.get('repaired_basis')}")
     return None
 
 
